@@ -79,6 +79,31 @@ AsgCases ==
              Asg(op, Tick(1, WMut(WInt), V("c")), Bin("+", Asg("=", V("c"), T(2, 3)), T(3, 1))), WInt, <<1, 2, 3>>) : op \in {"+=", "*=", "-="}}
 
 \* control constructs are statements: the value goes through `r := <stm>`
+\* boundary values of an EARLIER operand never excuse a later one (empty sequences, 0, 1, absorbing elements)
+EmptyA == ArrE(<<>>)
+TA(i, e) == Tick(i, WArr(WInt), e)
+TS(i, cps) == Tick(i, WStr, S(cps))
+ZeroCases ==
+  {Case("slice-empty-arr", <<>>, Slice(TA(1, EmptyA), T(2, 0), T(3, 2), T(4, 1)), WArr(WInt), <<1, 2, 3, 4>>),
+   Case("slice-empty-rep", <<>>, Slice(TA(1, RepE(I(7), I(0))), T(2, 1), T(3, 2), NoneV), WArr(WInt), <<1, 2, 3>>),
+   Case("slice-empty-str", <<>>, Slice(TS(1, <<>>), T(2, 0), T(3, 2), T(4, 1)), WStr, <<1, 2, 3, 4>>),
+   Case("slice-step0", <<>>, Slice(TA(1, Arr123), T(2, 0), T(3, 2), T(4, 0)), WArr(WInt), <<1, 2, 3, 4>>),
+   Case("concat-empty-l", <<>>, Bin("+", TA(1, EmptyA), TA(2, Arr123)), WArr(WInt), <<1, 2>>),
+   Case("concat-empty-r", <<>>, Bin("+", TA(1, Arr123), TA(2, EmptyA)), WArr(WInt), <<1, 2>>),
+   Case("concat-empty-str", <<>>, Bin("+", TS(1, <<>>), TS(2, <<97>>)), WStr, <<1, 2>>),
+   Case("repeat-zero", <<>>, RepE(T(1, 5), T(2, 0)), WArr(WInt), <<1, 2>>),
+   Case("eq-empty", <<>>, Bin("==", TA(1, EmptyA), ArrE(<<T(2, 1)>>)), WBool, <<1, 2>>),
+   Case("reduce-empty", <<>>, ReduceE(Tick(1, WIter(WInt), IterE(TA(2, EmptyA))), T(3, 10), Tick(4, FnTy2, Add2)), WInt, <<2, 1, 3, 4>>),
+   Case("map-empty", <<>>, CollectE(MapE(Tick(1, WIter(WInt), IterE(TA(2, EmptyA))), Tick(3, WFn(<<WInt>>, WInt), Dbl))), WArr(WInt), <<2, 1, 3>>),
+   Case("partition-empty", <<>>, PartE(Tick(1, WIter(WInt), IterE(TA(2, EmptyA))), Tick(3, WFn(<<WInt>>, WBool), IsBig)), WTup(<<WArr(WInt), WArr(WInt)>>), <<2, 1, 3>>),
+   Case("eq-different-kinds", <<>>, Bin("==", Tick(1, WAny, I(1)), Tick(2, WAny, S(<<97>>))), WBool, <<1, 2>>)}
+  \cup {Case("absorb" \o op \o ToString(a), <<>>, Bin(op, T(1, a), T(2, 5)), WInt, <<1, 2>>)
+          : op \in {"*", "&", "**", "<<", ">>", "/", "%", "|", "-"}, a \in {0, 1}}
+  \cup {Case("absorb-r" \o op \o ToString(b), <<>>, Bin(op, T(1, 5), T(2, b)), WInt, <<1, 2>>)
+          : op \in {"*", "&", "**", "<<", ">>", "|", "+"}, b \in {0, 1}}
+  \cup {Case("asg-absorb" \o op, <<Set("c", MutE(WInt, I(0)))>>, Asg(op, Tick(1, WMut(WInt), V("c")), T(2, 3)), WInt, <<1, 2>>)
+          : op \in {"*=", "&=", "<<=", "**="}}
+
 CtlCase(name, pre, stm, rty, must) == [name |-> name, pre |-> pre, stm |-> stm, rty |-> rty, must |-> must]
 CtlCases ==
   {CtlCase("if-" \o ToString(c), <<>>, If(TB(1, c), T(2, 10), T(3, 20)), WInt, IF c THEN <<1, 2>> ELSE <<1, 3>>) : c \in BOOLEAN}
@@ -105,7 +130,7 @@ CtlProg(c, ctx) ==
 Contexts == {"top", "fn"}
 AllCases ==
   {[id |-> c.name \o "/" \o ctx, suite |-> "c07", prog |-> ExprProg(c, ctx), must |-> c.must]
-      : c \in BinCases \cup LogicCases \cup DataCases \cup AsgCases, ctx \in Contexts}
+      : c \in BinCases \cup LogicCases \cup DataCases \cup AsgCases \cup ZeroCases, ctx \in Contexts}
   \cup {[id |-> c.name \o "/" \o ctx, suite |-> "c07", prog |-> CtlProg(c, ctx), must |-> c.must]
       : c \in CtlCases, ctx \in Contexts}
 
